@@ -135,13 +135,14 @@ def cluster_run(sym, tier):
     mem_mod.random = _SymRandom(sym, symbolic_calls=8 if tier == "quick" else 11)
     R = 14
     crash_round = sym.choice("crash_round", 3)          # 0 = never, 1/2 = member c crashes at that second
+    link_s = [0.005, 0.25][sym.choice("link_latency", 2)]   # 5 ms, or a quarter of the probe interval (still healthy: every message is delivered)
     net = Network(name="net")
     nodes = [MembershipProtocol(n, net, probe_interval=1.0, suspicion_timeout=2.0) for n in ("a", "b", "c")]
     for x in nodes:
         for y in nodes:
             if x is not y:
                 x.add_member(y)
-                net.add_link(x, y, NetworkLink(name=f"{x.name}-{y.name}", latency=ConstantLatency(0.005)))
+                net.add_link(x, y, NetworkLink(name=f"{x.name}-{y.name}", latency=ConstantLatency(link_s)))
     sim = Simulation(entities=[net] + nodes, end_time=Instant.from_seconds(R + 0.9))
     mon = Monitor(sim, cap=60)
     false_dead = []
@@ -223,10 +224,10 @@ HARNESSES = [
       bounds=lambda tier: {"interval history": "3 intervals from %s" % PHI_INTERVALS, "query offsets": PHI_TIMES},
       outside=["interval histories / instants off the tables", "libm rounding"]),
     H(name="c13_cluster_run", fn=cluster_run, shape="S", budget=lambda tier: 900.0 if tier == "quick" else 3000.0,
-      cubes=lambda tier: [{"crash_round": c, "shuffle1": a, "shuffle2": b} for c in range(3) for a in range(2) for b in range(2)],
+      cubes=lambda tier: [{"crash_round": c, "link_latency": l, "shuffle1": a, "shuffle2": b} for c in range(3) for l in range(2) for a in range(2) for b in range(2)],
       require=lambda tier: ["member_crashed"], classify=classify,
       functions=["MembershipProtocol.start/_handle_probe_tick/_handle_ping/_handle_ack/_handle_indirect_ping/_handle_suspicion_timeout/_next_probe_target/_suspect_member",
                  "PhiAccrualDetector.is_available", "Network.handle_event", "NetworkLink.handle_event"],
-      bounds=lambda tier: {"nodes": 3, "rounds": 14, "probe orders": "every permutation at the first %d shuffles, identity afterwards" % (8 if tier == "quick" else 11), "crash": "never | member c at 1.5 s | at 2.5 s"},
-      outside=["clusters larger than 3", "other probe intervals / suspicion timeouts / thresholds", "message delays other than 5 ms"]),
+      bounds=lambda tier: {"nodes": 3, "rounds": 14, "probe orders": "every permutation at the first %d shuffles, identity afterwards" % (8 if tier == "quick" else 11), "crash": "never | member c at 1.5 s | at 2.5 s", "link latency s": [0.005, 0.25]},
+      outside=["clusters larger than 3", "other probe intervals / suspicion timeouts / thresholds", "message delays other than 5 ms / 250 ms"]),
 ]
